@@ -119,6 +119,8 @@ impl ContinuityStreamCache {
             Ok(meta) => meta.len(),
             Err(_) => return,
         };
+        #[cfg(rip_verif)]
+        rip_kernel::verif::point("cache.side.opened");
 
         let mut writer = BufWriter::new(file);
         let Ok(line) = serde_json::to_string(event) else {
@@ -127,12 +129,18 @@ impl ContinuityStreamCache {
         if writer.write_all(line.as_bytes()).is_err() {
             return;
         }
+        #[cfg(rip_verif)]
+        rip_kernel::verif::point("cache.side.body");
         if writer.write_all(b"\n").is_err() {
             return;
         }
+        #[cfg(rip_verif)]
+        rip_kernel::verif::point("cache.side.nl");
         if writer.flush().is_err() {
             return;
         }
+        #[cfg(rip_verif)]
+        rip_kernel::verif::point("cache.side.flushed");
 
         // Best-effort indexes (rebuildable caches) to avoid full sidecar scans.
         if event.seq.is_multiple_of(SEEK_INDEX_STRIDE_EVENTS_V1) {
@@ -149,9 +157,13 @@ impl ContinuityStreamCache {
             let msg_path = message_index_path(&self.dir, continuity_id);
             insert_message_best_effort_v1(&msg_path, &path, &event.id, event.seq, offset);
         }
+        #[cfg(rip_verif)]
+        rip_kernel::verif::point("cache.side.indexed");
 
         // Additional cache: messages+runs-only sidecar + indexes.
         self.append_messages_runs_best_effort_v1(event);
+        #[cfg(rip_verif)]
+        rip_kernel::verif::point("cache.mr.done");
 
         // Additional cache: compaction checkpoints only (summary selection).
         self.append_compaction_checkpoints_best_effort_v1(event);
@@ -166,6 +178,8 @@ impl ContinuityStreamCache {
         let Ok(file) = File::create(&path) else {
             return;
         };
+        #[cfg(rip_verif)]
+        rip_kernel::verif::point("cache.rebuild.created");
         let mut writer = BufWriter::new(file);
         let mut offset: u64 = 0;
         let mut index_builder = SidecarIndexBuilderV1::new();
@@ -178,15 +192,27 @@ impl ContinuityStreamCache {
             };
             index_builder.observe_event(event, offset);
             let _ = writer.write_all(line.as_bytes());
+            #[cfg(rip_verif)]
+            rip_kernel::verif::point("cache.rebuild.body");
             let _ = writer.write_all(b"\n");
+            #[cfg(rip_verif)]
+            rip_kernel::verif::point("cache.rebuild.nl");
             offset = offset.saturating_add(line.len() as u64 + 1);
         }
         let _ = writer.flush();
+        #[cfg(rip_verif)]
+        rip_kernel::verif::point("cache.rebuild.flushed");
 
         let _ = index_builder.write_best_effort(&self.dir, continuity_id);
+        #[cfg(rip_verif)]
+        rip_kernel::verif::point("cache.rebuild.indexed");
 
         self.rebuild_messages_runs_best_effort_v1(continuity_id, events);
+        #[cfg(rip_verif)]
+        rip_kernel::verif::point("cache.rebuild.mr");
         self.rebuild_compaction_checkpoints_best_effort_v1(continuity_id, events);
+        #[cfg(rip_verif)]
+        rip_kernel::verif::point("cache.rebuild.done");
     }
 
     fn append_messages_runs_best_effort_v1(&self, event: &Event) {
@@ -213,6 +239,8 @@ impl ContinuityStreamCache {
             Ok(meta) => meta.len(),
             Err(_) => return,
         };
+        #[cfg(rip_verif)]
+        rip_kernel::verif::point("cache.mr.opened");
 
         let mut writer = BufWriter::new(file);
         let Ok(line) = serde_json::to_string(event) else {
@@ -221,12 +249,18 @@ impl ContinuityStreamCache {
         if writer.write_all(line.as_bytes()).is_err() {
             return;
         }
+        #[cfg(rip_verif)]
+        rip_kernel::verif::point("cache.mr.body");
         if writer.write_all(b"\n").is_err() {
             return;
         }
+        #[cfg(rip_verif)]
+        rip_kernel::verif::point("cache.mr.nl");
         if writer.flush().is_err() {
             return;
         }
+        #[cfg(rip_verif)]
+        rip_kernel::verif::point("cache.mr.flushed");
 
         // Best-effort indexes (rebuildable caches).
         let seek_path = self.messages_runs_seq_index_path_v1(continuity_id);
@@ -240,7 +274,11 @@ impl ContinuityStreamCache {
         }
         if matches!(&event.kind, EventKind::ContinuityMessageAppended { .. }) {
             let msg_path = self.messages_runs_message_index_path_v1(continuity_id);
+            #[cfg(rip_verif)]
+            rip_kernel::verif::point("cache.mr.seek");
             insert_message_best_effort_v1(&msg_path, &path, &event.id, event.seq, offset);
+            #[cfg(rip_verif)]
+            rip_kernel::verif::point("cache.mr.msgidx");
             let ord_path = self.messages_runs_message_ordinal_index_path_v1(continuity_id);
             append_message_record_best_effort_v1(&ord_path, event.seq, &event.id);
         }
@@ -267,6 +305,8 @@ impl ContinuityStreamCache {
             return;
         };
 
+        #[cfg(rip_verif)]
+        rip_kernel::verif::point("cache.comp.opened");
         let mut writer = BufWriter::new(file);
         let Ok(line) = serde_json::to_string(event) else {
             return;
@@ -274,10 +314,16 @@ impl ContinuityStreamCache {
         if writer.write_all(line.as_bytes()).is_err() {
             return;
         }
+        #[cfg(rip_verif)]
+        rip_kernel::verif::point("cache.comp.body");
         if writer.write_all(b"\n").is_err() {
             return;
         }
+        #[cfg(rip_verif)]
+        rip_kernel::verif::point("cache.comp.nl");
         let _ = writer.flush();
+        #[cfg(rip_verif)]
+        rip_kernel::verif::point("cache.comp.flushed");
 
         if let Some(entry) = CompactionCheckpointIndexEntryV1::from_event(event) {
             let idx_path = self.compaction_checkpoints_index_path_for_v1(continuity_id);
@@ -353,11 +399,17 @@ impl ContinuityStreamCache {
             return;
         }
 
+        #[cfg(rip_verif)]
+        rip_kernel::verif::point("cache.rebuild.mr.tmp");
         let _ = fs::rename(tmp_path, path);
+        #[cfg(rip_verif)]
+        rip_kernel::verif::point("cache.rebuild.mr.renamed");
         let _ = fs::rename(
             tmp_seek,
             self.messages_runs_seq_index_path_v1(continuity_id),
         );
+        #[cfg(rip_verif)]
+        rip_kernel::verif::point("cache.rebuild.mr.seek_renamed");
 
         // Build the message_id -> (seq, offset) index from the sidecar (cache-only; no truth log).
         let msg_path = self.messages_runs_message_index_path_v1(continuity_id);
@@ -493,7 +545,11 @@ impl ContinuityStreamCache {
             return;
         }
 
+        #[cfg(rip_verif)]
+        rip_kernel::verif::point("cache.rebuild.comp.tmp");
         let _ = fs::rename(tmp_path, path);
+        #[cfg(rip_verif)]
+        rip_kernel::verif::point("cache.rebuild.comp.renamed");
         let _ = rebuild_compaction_checkpoint_index_from_events_v1(
             &self.compaction_checkpoints_index_path_for_v1(continuity_id),
             continuity_id,
